@@ -344,7 +344,7 @@ func c45Corpus(p *keyPool) ([]c45Item, error) {
 	corpusOnce.Do(func() {
 		add := func(it c45Item) { corpus = append(corpus, it) }
 		// keys
-		for _, k := range p.keys {
+		for _, k := range p.baseKeys() {
 			for _, v := range []struct {
 				suffix string
 				arm    []byte
@@ -370,7 +370,7 @@ func c45Corpus(p *keyPool) ([]c45Item, error) {
 		}
 		// all keys in one ring
 		var all []byte
-		for _, k := range p.keys {
+		for _, k := range p.baseKeys() {
 			bin, _ := dearmor(k.pubArm)
 			all = append(all, bin...)
 		}
@@ -618,7 +618,7 @@ func c45ShortKeyMessage(rt *rapid.T, p *keyPool, data []byte, ps []refpgp.Packet
 	var out []byte
 	n := rapid.IntRange(1, 2).Draw(rt, "npkesk")
 	for i := 0; i < n; i++ {
-		rc := p.recipients()[rapid.IntRange(0, len(p.recipients())-1).Draw(rt, "krcpt")]
+		rc := p.baseRecipients()[rapid.IntRange(0, len(p.baseRecipients())-1).Draw(rt, "krcpt")]
 		sub := rc.ent.Subkeys[0].PublicKey
 		blockLen := rapid.SampledFrom([]int{0, 1, 2, 3, 4, 5, 19, 27, 35}).Draw(rt, "blocklen")
 		if rapid.Bool().Draw(rt, "anylen") {
@@ -899,9 +899,21 @@ func c45MutateText(rt *rapid.T, text []byte) ([]byte, string) {
 func c45Generate(rt *rapid.T, p *keyPool, items []c45Item) (target int, data, aux []byte, desc string) {
 	if rapid.IntRange(0, 5).Draw(rt, "built") == 0 {
 		// signed artefacts built field by field with correct hash tags (every key algorithm x hash)
-		if rapid.IntRange(0, 2).Draw(rt, "builtring") == 0 {
+		switch rapid.IntRange(0, 3).Draw(rt, "builtring") {
+		case 0:
 			target, data, desc = c45BuiltKeyRing(rt, p)
-		} else {
+		case 1:
+			var must bool
+			data, must, desc = drawMultiKey(rt, p)
+			target = c45Message
+			if data == nil {
+				data, desc = []byte{0xc1, 0}, "built-multikey:none"
+			}
+			if must {
+				desc += "/must-decrypt"
+			}
+			return
+		default:
 			target, data, aux, desc = c45BuiltSigned(rt, p)
 		}
 		if rapid.IntRange(0, 3).Draw(rt, "builtmut") == 0 {
@@ -1136,7 +1148,7 @@ func TestC45(t *testing.T) {
 	// bounded-exhaustive: session key blocks of 0..8 bytes for every encryption key in the ring
 	{
 		n := 0
-		for _, rc := range p.recipients() {
+		for _, rc := range p.baseRecipients() {
 			sub := rc.ent.Subkeys[0].PublicKey
 			for l := 0; l <= 8; l++ {
 				block := bytes.Repeat([]byte{7}, l)
@@ -1236,6 +1248,59 @@ func TestC45(t *testing.T) {
 		}
 		c.Exhaustive("key material kind x algorithm octet x version x packet tag x position in the ring", n)
 	}
+	// bounded-exhaustive: every ordered pair of session-key candidate kinds (and, in thorough,
+	// every ordered triple) in front of one encrypted data packet
+	{
+		n, i := 0, 0
+		run := func(kinds []string) {
+			i++
+			if !ev.Mine(i) {
+				return
+			}
+			cipher := []packet.CipherFunction{packet.CipherAES128, packet.CipherAES256, packet.CipherCAST5}[i%3]
+			msg, must := buildMultiKeyMessage(p, kinds, cipher, uint64(i))
+			if msg == nil {
+				return
+			}
+			desc := fmt.Sprintf("built-multikey:%v/cipher%d", kinds, cipher)
+			res := c45Exec(p, c45Message, msg, nil, 0)
+			if res.hung {
+				c45Hang(c, t, c45Message, msg, nil, desc, res)
+			}
+			if res.known != "" {
+				if _, l := ev.IsKnownFinding(res.known); l {
+					c.Excluded()
+					return
+				}
+			}
+			if res.known != "" || res.err != nil {
+				what := fmt.Sprintf("ReadMessage on %s: %v %s; input %x", desc, res.err, res.known, clip(msg))
+				c.Violation(what, "")
+				t.Fatalf("VF-VIOLATION: property=C45 %s", what)
+			}
+			if must {
+				if err := checkMustDecrypt(p, msg); err != nil {
+					what := fmt.Sprintf("%s: %v", desc, err)
+					c.Violation(what, "")
+					t.Fatalf("VF-VIOLATION: property=C45 %s", what)
+				}
+			}
+			c.Case(true, desc+"|"+res.label, "built-multikey:enumerated", "multikey-outcome="+res.label)
+			n++
+		}
+		for _, a := range c45Candidates {
+			run([]string{a})
+			for _, b := range c45Candidates {
+				run([]string{a, b})
+				if ev.Thorough() {
+					for _, d := range c45Candidates {
+						run([]string{a, b, d})
+					}
+				}
+			}
+		}
+		c.Exhaustive("ordered tuples of session-key candidate kinds (pairs; triples in thorough)", n)
+	}
 	listed := map[string]bool{}
 	for _, id := range []string{"F31", "F32", "F36"} {
 		_, listed[id] = ev.IsKnownFinding(id)
@@ -1259,9 +1324,24 @@ func TestC45(t *testing.T) {
 		if res.err != nil {
 			rt.Fatalf("VF-VIOLATION: property=C45 %s on %s: %v; input %x", c45TargetName[target], desc, res.err, clip(data))
 		}
+		if strings.HasSuffix(desc, "/must-decrypt") {
+			if err := checkMustDecrypt(p, data); err != nil {
+				rt.Fatalf("VF-VIOLATION: property=C45 %s: %v; input %x", desc, err, clip(data))
+			}
+		}
+		if target == c45Message && rapid.IntRange(0, 3).Draw(rt, "reuse") == 0 {
+			if pn := reuseObjects(rt, p, data); pn != nil {
+				if id := knownPanic(pn); id == "" || !listed[id] {
+					rt.Fatalf("VF-VIOLATION: property=C45 packet-level objects of %s used more than once: %s; input %x", desc, pn, clip(data))
+				}
+			}
+			c.Class("packet-objects-reused")
+		}
 		kinds := descKinds(desc)
 		base := strings.SplitN(desc, "|", 2)[0]
-		if strings.HasPrefix(base, "built-ring") {
+		if strings.HasPrefix(base, "built-multikey") {
+			kinds = "built-multikey"
+		} else if strings.HasPrefix(base, "built-ring") {
 			kinds = "built-ring"
 		} else if strings.HasPrefix(base, "built-") {
 			// key = artefact kind + key + the spec fields that decide the code path
